@@ -35,6 +35,9 @@ def gen_dags(tier, seed):
         names = ["rain", "rain_prev", "wet_rain_prev", "wet"][:n]
         for edges in O.all_dags(n, names):
             yield {"nodes": names, "edges": edges}
+    # integer labels 0..2 (0 is falsy): a single observed node / start node given bare must still be taken as a node
+    for edges in O.all_dags(3, O.node_names(3, "int")):
+        yield {"nodes": O.node_names(3, "int"), "edges": edges}
     rng = O.mk_rng(seed, "c08")
     for k in range(20 if tier == "quick" else 200):
         n = rng.randint(5, 7)
@@ -143,6 +146,17 @@ def check_independencies(case):
     nodes, edges = case["nodes"], case["edges"]
     if len(nodes) > 4:
         return None
+    if not all(isinstance(v, str) for v in nodes):
+        # IndependenceAssertion is documented for string names only; its failures on other labels get their own failure class
+        try:
+            return _check_independencies(case)
+        except (TypeError, ValueError) as e:
+            return {"key": "independencies:non-string-labels:raised", "what": f"nodes {nodes} edges {edges}: {type(e).__name__}: {e}"}
+    return _check_independencies(case)
+
+
+def _check_independencies(case):
+    nodes, edges = case["nodes"], case["edges"]
     g = _dag(case)
     for v in nodes:
         nd = set(nodes) - O.descendants_or_self(edges, [v])
@@ -254,7 +268,7 @@ def groups(tier):
               bound="all DAGs <= 4 nodes (thorough: + 1/6 of the 29281 five-node DAGs and all with >= 7 edges), every start, every observed "
                     "subset as list/set/tuple, latent subsets of size <= 1, both include_latents; 20 (200) seeded random DAGs on 5-7 nodes "
                     "with observed sets of size <= 2; all 3-node (thorough: 4-node) DAGs over names that contain one another; "
-                    "single observed node also passed as a bare string"),
+                    "single observed node also passed as a bare string; all 3-node DAGs over the integer labels 0..2"),
         Group("graph_views", gen_dags, check_graph_views, nontrivial, engine="E3", bound="same DAG enumeration; every node / node subsets of size <= 2"),
         Group("independencies", gen_dags, check_independencies, nontrivial, engine="E3", bound="all DAGs <= 4 nodes; local_independencies for every single variable and every ordered 2-/3-tuple (list and tuple)"),
         Group("minimal_dseparator", gen_dags, check_minimal_dseparator, nontrivial, engine="E3",
